@@ -133,7 +133,7 @@ pub fn run(ctx: &Ctx) -> Report {
     let n_var = 10usize;
     let all_r = robot_axis(0, &[6, 5]);
     let robots: Vec<Parameters> = if thorough {
-        all_r.iter().step_by(5).cloned().collect()
+        all_r.iter().step_by(2).cloned().collect()
     } else {
         vec![all_r[1], all_r[9], all_r[16], all_r[27], all_r[all_r.len() / 2 + 3], all_r[all_r.len() - 2]]
     };
